@@ -191,10 +191,13 @@ class Api(Engine):
         kind = case.ops[0].split()[1] if case.ops and case.ops[0].startswith('kind ') else '?'
         failed = False          # handle is in the FATAL state
         ended = False           # reader: next_header returned eof or fatal
+        if len(impl) > len(case.ops) and impl[len(case.ops)].startswith('!teardown'):
+            fmts = sorted({op.split()[1] for op in case.ops if op.startswith('set_format ')})
+            return f'leak at teardown: kind={kind} formats={",".join(fmts) or "-"} ({impl[len(case.ops)]})'
         for op, o in zip(case.ops, impl):
             w = op.split()
             if o.startswith('!'):
-                return 'sanitizer abort, signal or leak: ' + o
+                return 'sanitizer abort or signal: ' + o
             f = o.split()
             rc = f[0]
             st = next((x[3:] for x in f if x.startswith('st=')), None)
